@@ -167,6 +167,25 @@ impl GarbageCollector {
     }
 }
 
+/// Verification hook: a schedule point inside the reference-count read-modify-write
+/// window (between reading a chunk record and writing the new count back). The installed
+/// callback receives the chunk key; `None` (the default) does nothing.
+#[cfg(feature = "neumann_verif")]
+pub static VERIF_REFCOUNT_WINDOW: std::sync::RwLock<
+    Option<Arc<dyn Fn(&str) + Send + Sync>>,
+> = std::sync::RwLock::new(None);
+
+#[cfg(feature = "neumann_verif")]
+fn verif_refcount_window(chunk_key: &str) {
+    let hook = VERIF_REFCOUNT_WINDOW
+        .read()
+        .ok()
+        .and_then(|guard| guard.clone());
+    if let Some(hook) = hook {
+        hook(chunk_key);
+    }
+}
+
 /// Decrement chunk reference count. Used when deleting artifacts.
 ///
 /// # Errors
@@ -174,6 +193,8 @@ impl GarbageCollector {
 /// Returns an error if the store operation fails.
 pub fn decrement_chunk_refs(store: &TensorStore, chunk_key: &str) -> Result<()> {
     if let Ok(mut tensor) = store.get(chunk_key) {
+        #[cfg(feature = "neumann_verif")]
+        verif_refcount_window(chunk_key);
         let refs = get_int(&tensor, "_refs").unwrap_or(1);
         let new_refs = (refs - 1).max(0);
         tensor.set(
@@ -192,6 +213,8 @@ pub fn decrement_chunk_refs(store: &TensorStore, chunk_key: &str) -> Result<()> 
 /// Returns an error if the store operation fails.
 pub fn increment_chunk_refs(store: &TensorStore, chunk_key: &str) -> Result<()> {
     if let Ok(mut tensor) = store.get(chunk_key) {
+        #[cfg(feature = "neumann_verif")]
+        verif_refcount_window(chunk_key);
         let refs = get_int(&tensor, "_refs").unwrap_or(0);
         tensor.set(
             "_refs",
